@@ -55,6 +55,14 @@ Theorem C22_at_siblings : forall oifs a b e es last,
 Proof. exact quoted_at_siblings. Qed.
 Print Assumptions C22_at_siblings.
 
+(* one expand.Config (one Runner) used for a sequence of expansions while IFS changes in between
+   (set, unset, emptied): every call splits by the IFS of its own environment, whatever
+   value an earlier call left in the Config; with C22_fields_match_posix each is POSIX *)
+Theorem C22_config_reuse : forall calls prev,
+  fields_seq prev calls = map (fun c => word_fields (fst c) (snd c)) calls.
+Proof. exact fields_seq_independent. Qed.
+Print Assumptions C22_config_reuse.
+
 (* non-vacuity: IFS=:  and the word  $x  with x='a::b:'  gives a '' b ; pre$x"q"$y with
    IFS=" :" *)
 Open Scope N_scope.
@@ -74,5 +82,9 @@ Proof. vm_compute. split; reflexivity. Qed.
 Example C22_ex_dbl_vanishes : (* set --; x=; "$x$@" is no field, "$x" is one *)
   word_fields None [PDblMix [DVal []; DList []]] = [] /\ word_fields None [PDblMix [DVal []]] = [[]].
 Proof. vm_compute. split; reflexivity. Qed.
+Example C22_ex_seq : (* IFS=:; p $a; unset IFS; p $a   with a='x:y z' *)
+  fields_seq [] [(Some [58], [PExp [120;58;121;32;122]]); (None, [PExp [120;58;121;32;122]])]
+  = [[[120];[121;32;122]]; [[120;58;121];[122]]].
+Proof. vm_compute. reflexivity. Qed.
 Example C22_ex_unset_ifs : word_fields None [PExp [32;97;9;10;98;32]] = [[97];[98]].
 Proof. vm_compute. reflexivity. Qed.
